@@ -54,6 +54,10 @@ rstc = z3.Function('restricted_ctl', F, B)
 w_rstc = z3.Function('w_rstc', F, I)
 # least position (<= n) at which a formula holds along a path: well-ordering of the naturals
 lst = z3.Function('least_position', F, W, I, I)
+# arity invariant of formula OBJECTS (hereditary): what the code may rely on when it takes subformula(0)
+wfobj = z3.Function('object_invariant', F, B)
+w_obj = z3.Function('w_obj', F, I)
+UNARY = ('A', 'E', 'Not', 'X', 'F', 'G')
 named = z3.Function('named', I, B)      # always true; keeps a term in a lemma's hypothesis so that e-matching sees it
 
 
@@ -196,6 +200,24 @@ def ctl_axioms():
     return ax
 
 
+def object_axioms():
+    """the arity invariant of formula objects: elimination, heredity, introduction; LNot keeps it"""
+    f = z3.Const('f!ob', F)
+    j = z3.Int('j!ob')
+    return [
+        z3.ForAll([f], z3.Implies(z3.And(wfobj(f), is_tag(f, *UNARY)), nk(f) == 1), patterns=[wfobj(f)]),
+        z3.ForAll([f, j], z3.Implies(z3.And(wfobj(f), 0 <= j, j < nk(f)), wfobj(kid(f, j))), patterns=[z3.MultiPattern(wfobj(f), kid(f, j))]),
+        z3.ForAll([f], z3.Implies(z3.And(z3.Implies(is_tag(f, *UNARY), nk(f) == 1),
+                                         z3.Not(z3.And(0 <= w_obj(f), w_obj(f) < nk(f), z3.Not(wfobj(kid(f, w_obj(f))))))), wfobj(f)),
+                  patterns=[wfobj(f)]),
+    ]
+
+
+def lnot_keeps_objects():
+    f = z3.Const('f!lo', F)
+    return [z3.ForAll([f], z3.Implies(wfobj(f), wfobj(lnot_f(f))), patterns=[lnot_f(f)])]
+
+
 def ctl_induction_hypothesis():
     f = z3.Const('f!ihc', F)
     r = lnot_f(f)
@@ -249,10 +271,12 @@ class SemExt(Extension):
     def global_name(self, E, k, name):
         if k.hints.get('ext') != 'sem':
             return None
-        if name in ('sys', 'CTLS', 'LTL'):
+        if name in ('sys', 'CTLS', 'LTL', 'CTL'):
             return SV('module', None, name)
         if name == 'Kripke':
             return None
+        if name in ('PathQuantifier', 'Formula'):
+            return SV('fclass', None, name)
         if name == 'LNot':
             return SV('func', None, ('sem', 'LNot'))
         if name in TAG:
@@ -267,12 +291,18 @@ class SemExt(Extension):
                 return SV('sysmodules')
             if attr in TAG:
                 return SV('fclass', None, attr)
+            if attr == 'modelcheck' and base.x in ('CTL', 'LTL'):
+                q = ex.k.hints.get('modelcheck_contracts', {}).get(base.x)
+                if q:
+                    return SV('func', None, ('contract', q))
             raise Unsupported('module attribute %s' % attr)
         if base.ty == 'F':
             if attr == '_subformula':
                 f = base.t
                 return SV('seqval', None, (nk(f), lambda j, f=f: SV('F', kid(f, j))))
-            if attr in ('__module__', '__class__'):
+            if attr == '__class__':
+                return SV('fclassof', None, base.t)      # the receiver's own class (same tag)
+            if attr == '__module__':
                 return SV('str')
             return SV('bound', None, (base, attr))
         if base.ty in ('fseq', 'seqval'):
@@ -286,7 +316,13 @@ class SemExt(Extension):
 
     def isinstance(self, E, ex, a, cls, path, node):
         if self.on(ex) and a.ty == 'F' and cls.ty == 'fclass':
+            if cls.x == 'PathQuantifier':
+                return SV('bool', is_tag(a.t, 'A', 'E'))
+            if cls.x == 'Formula':
+                return SV('bool', z3.BoolVal(True))       # a value of static type F is a formula object
             return SV('bool', is_tag(a.t, cls.x))
+        if self.on(ex) and a.ty == 'F' and cls.ty == 'func' and cls.x[0] == 'builtin' and cls.x[1] in ('str', 'bool'):
+            return SV('bool', z3.BoolVal(False))
         return None
 
     def method(self, E, ex, base, attr, args, kwargs, path, node):
@@ -302,6 +338,8 @@ class SemExt(Extension):
                 return SV('F', kid(f, i.t))
             if attr == 'get_equivalent_restricted_formula':
                 return SV('F', restr(f))
+            if attr == 'subformulas':
+                return SV('seqval', None, (nk(f), lambda j, f=f: SV('F', kid(f, j))))
             if attr == 'clone':
                 return SV('F', f)       # formulas are identified with their trees
         if base.ty == 'fseq' and attr == 'append' and args[0].ty == 'F':
@@ -338,29 +376,33 @@ class SemExt(Extension):
         raise Unsupported('constructor operand of type %s' % a.ty)
 
     def call_value(self, E, ex, fn, args, kwargs, path, node):
-        if not self.on(ex) or fn.ty != 'fclass':
+        if not self.on(ex) or fn.ty not in ('fclass', 'fclassof'):
             return None
-        t = T(fn.x)
+        if fn.ty == 'fclass' and fn.x == 'AtomicProposition' and len(args) == 1 and args[0].ty in ('H', 'str'):
+            ap = hp.fresh('atom', F)
+            path.pc.append(z3.And(is_tag(ap, 'AtomicProposition'), nk(ap) == 0))
+            return SV('F', ap)
+        t = T(fn.x) if fn.ty == 'fclass' else tag(fn.x)
         xs = [self._arg(a) for a in args]
         if len(xs) in (1, 2):
             return SV('F', mk[len(xs)](t, *xs))
         raise Unsupported('constructor with %d operands' % len(xs))
 
     def star_call(self, E, ex, fn, node, path):
-        if not self.on(ex) or fn.ty != 'fclass':
+        if not self.on(ex) or fn.ty not in ('fclass', 'fclassof'):
             return None
         if len(node.args) != 1 or not isinstance(node.args[0], ast.Starred):
             raise Unsupported('mixed star call')
         seq = ex.ev(node.args[0].value, path)
         if seq.ty == 'fseq':
             h = path.heap
-            return SV('F', mkn(T(fn.x), h['fs_len'][seq.t], h['fs_el'][seq.t]))
+            return SV('F', mkn(T(fn.x) if fn.ty == 'fclass' else tag(fn.x), h['fs_len'][seq.t], h['fs_el'][seq.t]))
         if seq.ty == 'seqval':
             n, el = seq.x
             arr = hp.fresh('ops', z3.ArraySort(I, F))
             j = z3.Int('j!sc')
             path.pc.append(z3.ForAll([j], z3.Implies(z3.And(0 <= j, j < n), arr[j] == el(j).t), patterns=[arr[j]]))
-            return SV('F', mkn(T(fn.x), n, arr))
+            return SV('F', mkn(T(fn.x) if fn.ty == 'fclass' else tag(fn.x), n, arr))
         raise Unsupported('star call with %s' % seq.ty)
 
     def seq_comprehension(self, E, ex, e, g, coll, path):
@@ -389,13 +431,14 @@ def install(E):
     common = {'ext': 'sem', 'list_kind': 'fseq'}
 
     def facts(c):
-        return [('documented_semantics', z3.And(axioms())), ('documented_ctl_syntax', z3.And(ctl_axioms()))]
+        return [('documented_semantics', z3.And(axioms())), ('documented_ctl_syntax', z3.And(ctl_axioms())),
+                ('object_invariant_definition', z3.And(object_axioms()))]
 
     # -- LNot -------------------------------------------------------------------
     def lnot_req(c):
         out = []
         if c.side == 'callee':
-            out += facts(c) + [('induction_hypothesis_LNot', z3.And(lnot_contract_facts() + ctl_induction_hypothesis()[1:]))]
+            out += facts(c) + [('induction_hypothesis_LNot', z3.And(lnot_contract_facts() + ctl_induction_hypothesis()[1:] + lnot_keeps_objects()))]
         return out
 
     def lnot_ens(c):
@@ -404,6 +447,7 @@ def install(E):
                 ('no_double_negation', z3.Not(z3.And(is_tag(r, 'Not'), is_tag(k0(r), 'Not')))),
                 ('keeps_restricted_alphabet', z3.Implies(rst(f), rst(r))),
                 ('keeps_ctl_restricted_alphabet', z3.Implies(rstc(f), rstc(r))),
+                ('keeps_object_invariant', z3.Implies(wfobj(f), wfobj(r))),
                 ('is_the_result_function', r == lnot_f(f)) if c.side == 'caller' else ('trivial', z3.BoolVal(True))]
 
     E.register(Contract(
